@@ -72,6 +72,12 @@ def work(tasks, idx):
             kw["tpm_san_extra_dnsname_first"] = variant % 5 == 2     # an extra dNSName before the directoryName is still conformant
         if fmt in attest.CHAIN_FORMATS and fmt != "fido-u2f":
             kw["n_intermediates"] = variant % 3
+        # the same maps written differently: member order of the attestation object and of the COSE_Key, additional members
+        kw["attobj_order"] = [None, "reversed", "rotated"][variant % 3]
+        if variant % 4 == 1:
+            kw["attobj_extra"] = {"x-future-member": [1, 2, 3]}
+        cose_var = {"cose_order": [None, "reversed", "rotated"][(variant // 3) % 3],
+                    "cose_extra": {-70001: b"vendor", 4: [2]} if variant % 5 == 4 and fmt != "fido-u2f" else None}
         kw["rp_id"] = RP_IDS[variant % len(RP_IDS)]
         kw["origin"] = origin_for(kw["rp_id"], variant)
         cred_id = bytes((variant + i) % 256 for i in range(idlen))
@@ -83,7 +89,8 @@ def work(tasks, idx):
             # fidelity only: the envelope's rawId/id name something else than the attested credential id; the record must
             # still report what the authenticator data says
             kw["envelope_id"] = bytes((variant * 3 + i) % 251 for i in range(16))
-        b = _reg.build(fmt, choice, (), cred_id=cred_id, aaguid=bytes((variant * 13 + 7 * i + 1) % 256 for i in range(16)), **kw)
+        b = _reg.build(fmt, choice, (), cred_id=cred_id, aaguid=bytes((variant * 13 + 7 * i + 1) % 256 for i in range(16)),
+                       cose_var=cose_var, **kw)
         if b is None:
             continue
         req, r = b
